@@ -120,6 +120,7 @@ def run(chk):
     plan = []
     # (1) lattice polygons, all lattice points
     for _ in range(60 if quick else 1500):
+        rng.seed("%d/c04-1/%d" % (chk.seed, _))      # every world has its own stream: families do not disturb each other
         size = rng.choice([4, 5, 6, 8])
         poly = lattice_polygon(rng, rng.randint(3, 7), size)
         if rng.random() < 0.3:
@@ -138,6 +139,7 @@ def run(chk):
             plan.append(("lattice", i, poly, p))
     # (2) random polygons, cartesian + spherical
     for _ in range(150 if quick else 3000):
+        rng.seed("%d/c04-2/%d" % (chk.seed, _))      # every world has its own stream: families do not disturb each other
         sph = rng.random() < 0.5
         if sph:
             cx = rng.choice([rng.uniform(-170, 170), 179.0, -178.0, 175.0])
@@ -172,6 +174,7 @@ def run(chk):
             plan.append(("random", i, polyn, p, sph))
     # (3) single area-feature worlds on lattices: tag vs definition
     for _ in range(12 if quick else 150):
+        rng.seed("%d/c04-3/%d" % (chk.seed, _))      # every world has its own stream: families do not disturb each other
         size = 6
         poly = lattice_polygon(rng, rng.randint(3, 6), size)
         poly = [[x * 1000.0, y * 1000.0] for x, y in poly]
@@ -190,6 +193,7 @@ def run(chk):
     # (3b) local depth range: min / max depth given at points (each of the two alone and both); at a listed point the local
     # depth is the listed value, at the corners the value given for them
     for wi in range(9 if quick else 120):
+        rng.seed("%d/c04-4/%d" % (chk.seed, wi))      # every world has its own stream: families do not disturb each other
         size = 6
         poly = [[0.0, 0.0], [6000.0, 0.0], [6000.0, 6000.0], [0.0, 6000.0]] if wi % 2 == 0 else [[1000.0 * x, 1000.0 * y] for x, y in lattice_polygon(rng, rng.randint(3, 6), size)]
         inner = [(1000.0 * x + 500.0, 1000.0 * y + 500.0) for x in range(size) for y in range(size)
@@ -238,6 +242,7 @@ def run(chk):
                 cs.p3(slot, (q[0] + rng.uniform(-400, 400), q[1] + rng.uniform(-400, 400), TOP - d), d, [[4, 0, 0]])
     # (4) plumes
     for _ in range(25 if quick else 400):
+        rng.seed("%d/c04-5/%d" % (chk.seed, _))      # every world has its own stream: families do not disturb each other
         sph = rng.random() < 0.4
         # a third of the spherical plumes straddle the +-180 meridian (longitudes written on either branch)
         f = g.plume("p", sph, centre=((rng.choice([-1, 1]) * round(rng.uniform(177, 183), 2), round(rng.uniform(-50, 50), 2))
